@@ -2,7 +2,7 @@ use crate::element::SvgElement;
 use crate::errors::{Result, SvgdxError};
 use crate::types::OrderIndex;
 
-use std::io::{BufRead, BufReader, Cursor, Write};
+use std::io::{BufRead, BufReader, Cursor, ErrorKind, Read, Write};
 use std::str::FromStr;
 
 use quick_xml::events::attributes::Attribute;
@@ -120,7 +120,27 @@ impl InputList {
     }
 
     pub fn from_reader(reader: &mut dyn BufRead) -> Result<Self> {
-        let mut reader = Reader::from_reader(reader);
+        // quick-xml only recognises a UTF-8 byte order mark which arrives complete in
+        // the first read; skip it here so input delivered in small pieces (pipes,
+        // sockets) is treated the same as input read in one go.
+        let mut head = Vec::new();
+        while head.len() < 3 {
+            let buf = match reader.fill_buf() {
+                Ok(buf) => buf,
+                Err(e) if e.kind() == ErrorKind::Interrupted => continue,
+                Err(e) => return Err(e.into()),
+            };
+            if buf.is_empty() {
+                break;
+            }
+            let n = (3 - head.len()).min(buf.len());
+            head.extend_from_slice(&buf[..n]);
+            reader.consume(n);
+        }
+        if head == [0xEF, 0xBB, 0xBF] {
+            head.clear();
+        }
+        let mut reader = Reader::from_reader(Cursor::new(head).chain(reader));
 
         let mut events = Vec::new();
         let mut buf = Vec::new();
